@@ -49,17 +49,19 @@ HdrClient  == << LBR, LBR >> \o K_client \o << RBR, RBR >>         \* [[client]]
 
 \* a token is what the author typed for one character of the value
 Mean == [ a |-> CHa, Z |-> CHZ, A |-> 65, z |-> 122, sp |-> SP, sq |-> SQ, dq |-> DQ, bs |-> BS, hash |-> HASH, eq |-> EQ,
-          ee |-> EACUTE, nl |-> LF, tab |-> TAB,
+          ee |-> EACUTE, nl |-> LF, tab |-> TAB, qm |-> 63, gt |-> 62, til |-> 126,
           edq |-> DQ, ebs |-> BS, en |-> LF, et |-> TAB, eu |-> EACUTE, eU |-> CHa ]
 
 \* ... and how it appears in the file
 Text == [ a |-> << CHa >>, Z |-> << CHZ >>, A |-> << 65 >>, z |-> << 122 >>, sp |-> << SP >>, sq |-> << SQ >>, dq |-> << DQ >>, bs |-> << BS >>,
           hash |-> << HASH >>, eq |-> << EQ >>, ee |-> << EACUTE >>, nl |-> << LF >>, tab |-> << TAB >>,
+          qm |-> << 63 >>, gt |-> << 62 >>, til |-> << 126 >>,
           edq |-> << BS, DQ >>, ebs |-> << BS, BS >>, en |-> << BS, 110 >>, et |-> << BS, 116 >>,
           eu  |-> << BS, 117, 48, 48, 69, 57 >>,                    \* é
           eU  |-> << BS, 85, 48, 48, 48, 48, 48, 48, 54, 49 >> ]    \* \U00000061
 
-\* ("A" and "z" exist only for the case-twin user names of MCConfig.FamCase; they are not enumerated)
+\* ("A" and "z" exist only for the case-twin user names of MCConfig.FamCase, "qm" "gt" "til" (? > ~) only for
+\* MCConfig.FamB64: characters whose position decides whether base64(user:password) contains + or /; not enumerated)
 BasicToks     == { "a", "Z", "sp", "sq", "hash", "eq", "ee", "edq", "ebs", "en", "et", "eu" }
 LiteralToks   == { "a", "Z", "sp", "dq", "bs", "hash", "eq", "ee" }
 MlBasicToks   == BasicToks \cup { "nl", "dq" }
